@@ -266,6 +266,20 @@ func run(s *core.Shard) {
 			n = k
 		}
 	}
+	for i := 0; i < 48; i++ {
+		if !s.Mine(n + i) {
+			continue
+		}
+		if !s.Begin(fmt.Sprintf("layered/%d", i)) {
+			continue
+		}
+		c := layered(i)
+		if ok, _ := judge(s, c); ok {
+			s.Cover("carrier", c.Carrier)
+			s.Cover("focus", c.Focus)
+			s.Nontrivial(c.Split.Key())
+		}
+	}
 	for i := 0; i < n; i++ {
 		if !s.Mine(i) {
 			continue
